@@ -21,7 +21,7 @@ RULE = ("Sequential: bodies {JSON, invalid JSON, urlencoded, multipart, empty} x
         "<=3 (thorough 4) over {body, stream, stream-partial, json, form, close}, both interfaces. Concurrent (ASGI): 2-3 tasks x one access each from {body, json, form, "
         "stream} x yield vectors {0,1,3}^k before each access x 0/1 yields inside receive() x 3 chunkings x 3 disconnect positions x 3 body kinds. Non-trivial = sequence "
         "with >=2 body-touching accesses, or a disconnect, or a concurrent history; sequences are distinct by construction.")
-RULE += " Also: request.stream() called and the iterator dropped unused (reads nothing); a second Request object on the same scope / environ with its own input channel; 2-4 requests in flight at once, each body arriving in pieces, read through one accessor; accurate Content-Length on half of the requests, payloads on GET / DELETE / PUT, minimal ASGI messages (optional keys omitted), every spelling of stream()'s chunk-size argument. The view of each request changes the JSON object it parsed; the next request carrying the same bytes must get the parse of its own body."
+RULE += " Also: request.stream() called and the iterator dropped unused (reads nothing); a second Request object on the same scope / environ with its own input channel; 2-4 requests in flight at once, each body arriving in pieces, read through one accessor; accurate Content-Length on half of the requests, payloads on GET / DELETE / PUT, minimal ASGI messages (optional keys omitted), every spelling of stream()'s chunk-size argument. The view of each request changes the JSON object it parsed; the next request carrying the same bytes must get the parse of its own body. Every third shard sends the bodies under other legal spellings of Content-Type (parameter names in another case, no blank after the semicolon, quoted values, JSON declared and sent as utf-16)."
 ASSUMPTIONS = [
     "the outcome of close() is not judged (only that it consumes nothing)",
     "a partially iterated stream followed by a disconnect is 'partial', not ClientDisconnect",
